@@ -234,6 +234,7 @@ def run_script(R, rec, data, script, use_guard=True):
     real, model = R(arg), RefReader(data)
     g = guardmod.install(real, data) if use_guard else None
     ls = LockstepReader(real, model, guard=g)
+    ls.scribble = True
     root = ls
     done = []
     try:
